@@ -118,7 +118,7 @@ func scenarios(thorough bool) []Scenario {
 	if thorough {
 		for i := range out {
 			out[i].Bound = 1
-			if strings.HasPrefix(out[i].Name, "shared-ids") || strings.HasPrefix(out[i].Name, "one") {
+			if strings.HasPrefix(out[i].Name, "one") {
 				out[i].Bound = 2
 			}
 		}
@@ -396,12 +396,14 @@ func sigOf(sc Scenario, clause string) string {
 	return clause + "/" + variant
 }
 
+var deadline time.Time // per worker process: exploration stops there and the run is reported as not exhaustive
+
 func explore(r *rep.Run, sc Scenario) {
 	maxExec := 1500
 	if r.Tier == "thorough" {
 		maxExec = 5000
 	}
-	ex := &vsched.Explorer{Bound: sc.Bound, MaxExec: maxExec}
+	ex := &vsched.Explorer{Bound: sc.Bound, MaxExec: maxExec, Deadline: deadline}
 	ex.RunOne = func(prefix []int) vsched.Result {
 		x := runOne(sc, prefix)
 		r.Eval(sc.Fault == "" || x.hit)
@@ -429,7 +431,7 @@ func explore(r *rep.Run, sc Scenario) {
 
 func Run(r *rep.Run) {
 	thorough := r.Tier == "thorough"
-	r.Rule = "request streams of 1-4 branch commits over two resources with branch ids shared across xids and xids shared across branches (7 undo-log rows present, 3 never requested) x {1 or 2 concurrent callers, queue pressure (receive channel 1, worker buffer 1, buffer limit 2), 1 or 2 commit workers} x {no fault, the k-th connection acquisition fails once, the k-th DELETE fails once, the resource is unknown until an environment event registers it}; a fresh real AsyncWorker per execution, its run loop and fanout workers adopted by the scheduler; every schedule with at most `bound` deviations (quick: 0, and 1 for the one- and two-request streams; thorough: 1, and 2 for those), capped at 1500 / 5000 executions per scenario (a capped scenario makes the run non-exhaustive) over the rewriter-inserted points of async_worker.go and fanout.go, every memdb statement, the ticker and the registration event; after the callers return, ticks are delivered until the budget (4-6) is used up and the worker is idle. Non-trivial = fault-free scenario, or the fault fired."
+	r.Rule = "request streams of 1-4 branch commits over two resources with branch ids shared across xids and xids shared across branches (7 undo-log rows present, 3 never requested) x {1 or 2 concurrent callers, queue pressure (receive channel 1, worker buffer 1, buffer limit 2), 1 or 2 commit workers} x {no fault, the k-th connection acquisition fails once, the k-th DELETE fails once, the resource is unknown until an environment event registers it}; a fresh real AsyncWorker per execution, its run loop and fanout workers adopted by the scheduler; every schedule with at most `bound` deviations (quick: 0, and 1 for the one- and two-request streams; thorough: 1, and 2 for the one-request stream), each worker process stops exploring after 4 / 15 minutes (reported as not exhaustive, never as a violation), capped at 1500 / 5000 executions per scenario (a capped scenario makes the run non-exhaustive) over the rewriter-inserted points of async_worker.go and fanout.go, every memdb statement, the ticker and the registration event; after the callers return, ticks are delivered until the budget (4-6) is used up and the worker is idle. Non-trivial = fault-free scenario, or the fault fired."
 	r.Assume = []string{"streams over two resources are not schedule-deterministic (the worker iterates a Go map of resource groups): their replays may diverge; diverged replays are counted and judged as executions of their own", "faults are transient (each fires once)", "time is virtual: the clean-up ticker ticks only when the scheduler chooses it", "memdb executes the DELETE the worker sends"}
 	setup()
 	if replay := os.Getenv("VERIF_REPLAY"); replay != "" {
@@ -458,6 +460,10 @@ func Run(r *rep.Run) {
 		return
 	}
 	runtime.GOMAXPROCS(1)
+	deadline = time.Now().Add(4 * time.Minute)
+	if thorough {
+		deadline = time.Now().Add(15 * time.Minute)
+	}
 	for i, sc := range scenarios(thorough) {
 		if i%nshards != shard {
 			continue
